@@ -121,14 +121,15 @@ def r2(ctx):
     except E.Unsupported as ex:
         got = "UNSUPPORTED-FORM: %s" % ex
     # `id()` (the RecordIdentifier = namespace || author || key) covers the three identifying components at once
-    need = {"namespace": ("namespace(", "namespace_bytes(", "id("), "author": ("author_bytes(", "author(", "id("), "key": ("key(", "key_bytes(", "id("), "timestamp": ("timestamp(",), "content hash": ("content_hash(",)}
+    need = {"namespace": ("namespace(", "namespace_bytes(", "id("), "author": ("author_bytes(", "author(", "id("), "key": ("key(", "key_bytes(", "id("), "timestamp": ("timestamp(",), "content hash": ("content_hash(",),
+            "content length": ("content_len(", "len(")}
     for what, alts in need.items():
         # the component itself is fed, not something merely derived from it together with other data: the fed value is the accessor chain
         ok = any(x.startswith(a) or ("(" + a) in x for x in fed for a in alts)
         ctx.check(ok and not got.startswith("UNSUPPORTED"), "C01.R2", b.path, "fingerprint-covers-%s" % what.replace(" ", "-"),
                   "values fed to the hasher: %s; result %s" % (fed, got[:80]), b.sp)
     ctx.check(got.startswith("Fingerprint(") and "digest(" in got, "C01.R2", b.path, "fingerprint-is-the-hash", "returns %s (spec: Fingerprint of the hasher's digest over everything fed)" % got[:160], b.sp)
-    ctx.floor("C01.R2", 6)
+    ctx.floor("C01.R2", 7)
 
 
 def r3(ctx):
